@@ -10,4 +10,5 @@ if ! git -C "$wt" apply "$patch" 2>/dev/null; then
 fi
 cd /verif && VERIF_EVIDENCE_DIR=/tmp/evid_seeded EQSIG_REPO="$wt" /venv/bin/python harness/check.py "$pid" --tier "$tier"; rc=$?
 git -C /repo worktree remove --force "$wt"
+/venv/bin/python /verif/translator/regen.py >/dev/null 2>&1   # generated files back to /repo's sources
 echo "exit=$rc"
